@@ -535,7 +535,20 @@ namespace bloch::runtime {
     // types. Binding a reference (null included) to a slot of a declared class type therefore
     // restamps it with that class. A declared type that names no class here (an unresolved type
     // parameter) leaves the stamp alone.
+    // An int bound to a slot declared 'long' becomes a long there and then: left with its int
+    // kind, later arithmetic on the slot would be done, and overflow, at 32 bits.
+    static void widenToDeclaredLong(Value& v) {
+        if (v.type != Value::Type::Int)
+            return;
+        v.type = Value::Type::Long;
+        v.longValue = v.intValue;
+    }
+
     void RuntimeEvaluator::stampStaticClass(Value& v, const RuntimeTypeInfo& declared) const {
+        if (declared.kind == Value::Type::Long) {
+            widenToDeclaredLong(v);
+            return;
+        }
         if (v.type != Value::Type::Object || declared.kind != Value::Type::Object)
             return;
         if (declared.className.empty() || !findClass(declared.className))
@@ -545,6 +558,11 @@ namespace bloch::runtime {
 
     void RuntimeEvaluator::stampStaticClass(Value& v, Type* declared,
                                             const RuntimeClass* genericCtx) const {
+        if (auto prim = dynamic_cast<PrimitiveType*>(declared)) {
+            if (prim->name == "long")
+                widenToDeclaredLong(v);
+            return;
+        }
         if (v.type != Value::Type::Object || !dynamic_cast<NamedType*>(declared))
             return;
         std::unordered_map<std::string, RuntimeTypeInfo> subst;
@@ -689,6 +707,8 @@ namespace bloch::runtime {
                     newVal.type == Value::Type::Object && !fit->second.value.className.empty()) {
                     newVal.className = fit->second.value.className;
                 }
+                if (fit->second.value.type == Value::Type::Long)
+                    widenToDeclaredLong(newVal);
                 fit->second.value = newVal;
                 fit->second.initialized = true;
                 return;
@@ -705,6 +725,8 @@ namespace bloch::runtime {
                         newVal.type == Value::Type::Object && !existing.className.empty()) {
                         newVal.className = existing.className;
                     }
+                    if (existing.type == Value::Type::Long)
+                        widenToDeclaredLong(newVal);
                     storeInSlot(thisObj->fields[field->offset], newVal);
                     return;
                 }
@@ -717,6 +739,8 @@ namespace bloch::runtime {
                     !existing.className.empty()) {
                     newVal.className = existing.className;
                 }
+                if (existing.type == Value::Type::Long)
+                    widenToDeclaredLong(newVal);
                 storeInSlot(owner->staticStorage[field->offset], newVal);
                 return;
             }
